@@ -3,3 +3,5 @@ import Okane.Base.AMap
 import Okane.Base.Sexp
 import Okane.Base.Num
 import Okane.Base.Date
+import Okane.Generated.Params
+import Okane.Props.C20
